@@ -156,37 +156,36 @@ structure Layout where
   fields : List (String × Nat × Nat)
   deriving Repr, DecidableEq, Inhabited
 
-mutual
-/-- size and alignment of a field type; `fuel` bounds struct nesting depth (none = unknown struct or too deep) -/
-def fieldSA (tbl : List StructDef) : Nat → FieldTy → Option SizeAlign
-  | _, .int b => some ⟨b, b⟩
-  | fuel, .arr e n => (fieldSA tbl fuel e).map fun sa => ⟨sa.size * n, sa.align⟩
-  | 0, .struct _ => none
-  | fuel+1, .struct nm =>
-    match tbl.find? (·.name == nm) with
-    | none => none
-    | some sd => (layoutOf tbl fuel sd).map fun l => ⟨l.size, l.align⟩
-
-/-- lay out the fields of `sd` in order -/
-def layoutFields (tbl : List StructDef) (fuel : Nat) (packed : Bool) :
+/-- lay out fields in order, given the size/alignment of each field type -/
+def layoutWith (sa : FieldTy → Option SizeAlign) (packed : Bool) :
     List (String × FieldTy) → Nat → Nat → List (String × Nat × Nat) → Option Layout
   | [], off, al, acc => some ⟨if packed then off else alignUp off al, if packed then 1 else al, acc.reverse⟩
   | (nm, ty) :: rest, off, al, acc =>
-    match fieldSA tbl fuel ty with
+    match sa ty with
     | none => none
-    | some sa =>
-      let a := if packed then 1 else sa.align
+    | some s =>
+      let a := if packed then 1 else s.align
       let o := alignUp off a
-      layoutFields tbl fuel packed rest (o + sa.size) (max al a) ((nm, o, sa.size) :: acc)
+      layoutWith sa packed rest (o + s.size) (max al a) ((nm, o, s.size) :: acc)
+
+/-- size and alignment of a field type; `fuel` bounds the nesting depth (none = unknown struct or too deep) -/
+def fieldSA (tbl : List StructDef) : Nat → FieldTy → Option SizeAlign
+  | 0, _ => none
+  | _+1, .int b => some ⟨b, b⟩
+  | fuel+1, .arr e n => (fieldSA tbl fuel e).map fun sa => ⟨sa.size * n, sa.align⟩
+  | fuel+1, .struct nm =>
+    match tbl.find? (·.name == nm) with
+    | none => none
+    | some sd =>
+      (layoutWith (fieldSA tbl fuel) (sd.repr == .packed) sd.fields 0 1 []).map fun l => ⟨l.size, l.align⟩
 
 def layoutOf (tbl : List StructDef) (fuel : Nat) (sd : StructDef) : Option Layout :=
-  layoutFields tbl fuel (sd.repr == .packed) sd.fields 0 1 []
-end
+  layoutWith (fieldSA tbl fuel) (sd.repr == .packed) sd.fields 0 1 []
 
 def layoutByName (tbl : List StructDef) (nm : String) : Option Layout :=
   match tbl.find? (·.name == nm) with
   | none => none
-  | some sd => layoutOf tbl 4 sd
+  | some sd => layoutOf tbl 6 sd
 
 /-! ## Bytes -/
 
